@@ -824,7 +824,12 @@ class Exec:
             return
         hi_c = conc(hi)
         if hi_c is None:
-            raise Unsupported('symbolic high slice bound at %s' % ins.get('pos'))
+            # x[lo:hi] with symbolic hi: length hi-lo, must stay within the capacity (else a panic path)
+            hi64 = hi if hi.size() == 64 else z3.ZeroExt(64 - hi.size(), hi)
+            if not self.must(st, z3.And(z3.ULE(hi64, bvval(x.cap, 64)), z3.UGE(hi64, bvval(lo_c, 64)))):
+                raise PathEnd('panic', 'slice bounds out of range possible at %s' % ins.get('pos'))
+            self.setreg(fr, ins, Slice(x.obj, x.off + lo_c, z3.simplify(hi64 - lo_c), x.cap - lo_c, 0, x.cap - lo_c))
+            return
         if not (0 <= lo_c <= hi_c <= x.cap):
             raise PathEnd('panic', 'slice bounds out of range at %s' % ins.get('pos'))
         self.setreg(fr, ins, Slice(x.obj, x.off + lo_c, hi_c - lo_c, x.cap - lo_c))
